@@ -89,6 +89,15 @@ def fill_orders():
 
 
 CHAIN_SET = [0, 1, 32, 33, 34, 35, 66, 67]
+# pre-existing images: (kind, stream length, chain) per old file
+FRAG_BASES = [
+    [("ML", 5000, [5, 67, 20])],
+    [("ML", 2304 + 4, [66, 0]), ("ASC", 100, [35])],
+    [("BAS", 7000, [33, 34, 32, 36]), ("ML", 10, [67])],
+    [("ML", 4700, [40, 41, 43]), ("ML", 300, [42])],
+    [("ASC", 2304, [1, 3]), ("ML", 2300, [0]), ("ML", 2400, [2, 64])],
+    [("ML", 60000, list(range(67, 40, -1)))],
+]
 
 
 def cases(tier, seed):
@@ -118,6 +127,11 @@ def cases(tier, seed):
     for name, order in fill_orders():
         for lst in lists:
             yield {"k": "write", "files": lst, "fill": name}
+    # write side onto pre-existing fragmentation: a file is added to an image (independent writer) whose files sit on scattered chains
+    for bi in range(len(FRAG_BASES)):
+        for n in (1, 2290, 2295, 4599, 7000, 20000):
+            for fill in ("default", "reverse", "identity", "oddeven"):
+                yield {"k": "frag", "base": bi, "files": [fspec("ML", n, "NEWFILE", pat="ramp7")], "fill": fill}
     # read side: independent writer, arbitrary chains
     ends = {"mid": 1000, "exact": 2304, "strad1": 2304 + 1, "strad4": 2304 + 4, "strad-1": 2304 - 1, "two": 4608 + 7}
     chains = [c for n in (1, 2, 3) for c in itertools.permutations(CHAIN_SET, n)]
@@ -155,6 +169,8 @@ def list_image(img):
 
 
 def cell_of(case):
+    if case["k"] == "frag":
+        return "frag|base{}|{}|{}".format(case["base"], lenclass(case["files"][0]), case["fill"])
     if case["k"] == "write":
         fs = case["files"]
         return "write|{}|{}|{}".format(",".join(kind_of(s) for s in fs) or "none", ",".join(lenclass(s) for s in fs) or "none", case["fill"])
@@ -164,6 +180,28 @@ def cell_of(case):
     cross = any((a < 34) != (b < 34) for a, b in zip(ch, ch[1:]))
     return "read|{}|{}|len{}.{}{}{}|{}".format(case["kind"], case["end"], len(ch), shape, ".adj" if adj and len(ch) > 1 else "",
                                               ".x17" if cross else "", "two" if case["second"] else "one")
+
+
+def frag_base_image(bi):
+    files, specs = [], []
+    for i, (kind, slen, chain) in enumerate(FRAG_BASES[bi]):
+        h = HDR[kind]
+        t, d = KINDS[kind]
+        n = slen - h
+        data = C.pattern(n, "ramp")
+        files.append({"name": "OLD{}".format(i), "ext": "DAT", "type": t, "dtype": d,
+                      "stream": dskfs.make_stream({"ML": "ml", "BAS": "basic"}.get(kind, "ascii"), data, 0x1000 + i, 0x2000 + i), "chain": chain})
+        specs.append(C.spec("OLD{}".format(i), "DAT", t, d, 0x1000 + i if kind == "ML" else 0, 0x2000 + i if kind == "ML" else 0, n, "ramp"))
+    return dskfs.write(files), specs
+
+
+def build_frag(case):
+    from cocoasm.virtualfiles.disk import DiskFile
+    img, old = frag_base_image(case["base"])
+    order = order_by_name(case["fill"])
+    df = DiskFile(buffer=list(img), granule_fill_order=order) if order else DiskFile(buffer=list(img))
+    df.add_files([C.to_coco(s) for s in case["files"]])
+    return bytes(df.get_buffer()), old + case["files"]
 
 
 def read_case_image(case):
@@ -207,6 +245,8 @@ def check_case(case):
         if case["k"] == "write":
             img = build_image(case)
             specs = case["files"]
+        elif case["k"] == "frag":
+            img, specs = build_frag(case)
         else:
             img, specs = read_case_image(case)
             assert not dskfs.fsck(img), dskfs.fsck(img)
@@ -224,7 +264,7 @@ def check_case(case):
     except Exception as e:
         t, w = common._raiser(e)
         bad("reader raised {}@{}".format(t, w), "listing", repr(e)[:120])
-    if case["k"] == "write":
+    if case["k"] in ("write", "frag"):
         try:
             ref = [{"name": f["name"], "ext": f["ext"], "type": f["type"], "dtype": f["dtype"], "load": f["load"], "exec": f["exec"],
                     "data": f["data"]} for f in dskfs.read_files(img)]
